@@ -268,7 +268,11 @@ class InlineVariable(_Inliner):
                 resources = self.project.get_python_files()
         if only_current:
             resources = [self.original]
-            if remove and self.original != self.resource:
+            if (
+                remove
+                and self.original != self.resource
+                and self.resource.project == self.project
+            ):
                 resources.append(self.resource)
         changes = ChangeSet("Inline variable <%s>" % self.name)
         jobset = task_handle.create_jobset("Calculating changes", len(resources))
